@@ -49,6 +49,8 @@ pub struct Profile {
     pub txn_burst: u32,
     /// issue plan-variant families at quiescent points (C06)
     pub plan_probes: bool,
+    /// create the database with a cache of 24-32 pages
+    pub small_cache: bool,
     pub guards: Vec<String>,
 }
 
@@ -83,6 +85,7 @@ impl Profile {
             w_chaos: 0,
             txn_burst: 0,
             plan_probes: false,
+            small_cache: false,
             guards: default_guards(),
         }
     }
